@@ -235,6 +235,9 @@ func ruleEntryWiring(c *Ctx) {
 				})
 				c.ob(rule, fn+":base-is-options-base", fcall.Pos(), okRet && nret > 0, "the base path handed back with the loader must be the RelativeBase of the options the loader was built with, read after the loader factory ran")
 				providers[f] = provider{li, bi}
+			} else if packedOK, packed := c.loaderPackedWithBase(fam, fd, fcall, optID); packed {
+				// loader and base path packed together into a parameter object whose methods do the expansion
+				c.ob(rule, fn+":base-is-options-base", fcall.Pos(), packedOK, "the base path packed with the loader must be the RelativeBase of the options the loader was built with, read after the loader factory ran")
 			} else {
 				c.ob(rule, fn+":base-is-options-base", fcall.Pos(), false, "a loader is built but neither used for an expansion here nor handed back with its base path")
 			}
@@ -449,6 +452,21 @@ func ruleOptsImmutable(c *Ctx) {
 						return true
 					}
 					bad = append(bad, "used in "+exprString(par))
+				case *ast.KeyValueExpr:
+					// packed into a parameter object of the package: fine if every reader of that field hands it to
+					// the cloner (or nil-tests it) and nobody writes through it
+					if lit, ok := parents[par].(*ast.CompositeLit); ok && par.Value == ast.Expr(id) {
+						if kid, ok := par.Key.(*ast.Ident); ok {
+							if st, ok := derefType(c.typeOf(lit)).Underlying().(*types.Struct); ok {
+								for k := 0; k < st.NumFields(); k++ {
+									if st.Field(k).Name() == kid.Name && !st.Field(k).Exported() && c.optsFieldOnlyCloned(st.Field(k), cloner) {
+										return true
+									}
+								}
+							}
+						}
+					}
+					bad = append(bad, "stored in a value whose readers do not all clone it")
 				case *ast.AssignStmt:
 					// options = optionsOrDefault(options): rebinding the local name to the clone
 					for _, l := range par.Lhs {
@@ -907,4 +925,89 @@ func (c *Ctx) typedAccessReadOnly(fd *ast.FuncDecl, ta *ast.TypeAssertExpr) bool
 		})
 	}
 	return ok
+}
+
+// optsFieldOnlyCloned: every read of the struct field (holding a caller's *ExpandOptions) in the package is an
+// argument of the options cloner or a nil comparison; the field is never written through.
+func (c *Ctx) optsFieldOnlyCloned(f *types.Var, cloner *types.Func) bool {
+	ok, reads := true, 0
+	for _, fd := range c.allFuncDecls() {
+		if fd.Body == nil {
+			continue
+		}
+		parents := map[ast.Node]ast.Node{}
+		var stack []ast.Node
+		ast.Inspect(fd.Body, func(n ast.Node) bool {
+			if n == nil {
+				stack = stack[:len(stack)-1]
+				return true
+			}
+			if len(stack) > 0 {
+				parents[n] = stack[len(stack)-1]
+			}
+			stack = append(stack, n)
+			return true
+		})
+		ast.Inspect(fd.Body, func(n ast.Node) bool {
+			se, isSel := n.(*ast.SelectorExpr)
+			if !isSel || c.fieldOfSel(se) != f {
+				return true
+			}
+			reads++
+			switch par := parents[se].(type) {
+			case *ast.CallExpr:
+				if g, _ := c.callee(par).(*types.Func); g == cloner {
+					return true
+				}
+				ok = false
+			case *ast.BinaryExpr:
+				if !(isNilIdent(c, par.X) || isNilIdent(c, par.Y)) {
+					ok = false
+				}
+			default:
+				ok = false
+			}
+			return true
+		})
+	}
+	return ok && reads > 0
+}
+
+// loaderPackedWithBase: the function packs a loader and a base path into a composite literal of an unexported
+// struct type of the package (a parameter object). Reports whether such a literal exists, and whether its string
+// field is the RelativeBase of the options identified by optID, read after the factory call.
+func (c *Ctx) loaderPackedWithBase(fam *expFamily, fd *ast.FuncDecl, fcall *ast.CallExpr, optID *ast.Ident) (ok, packed bool) {
+	ast.Inspect(fd.Body, func(n ast.Node) bool {
+		lit, isLit := n.(*ast.CompositeLit)
+		if !isLit {
+			return true
+		}
+		nt, isNamedT := types.Unalias(derefType(c.typeOf(lit))).(*types.Named)
+		if !isNamedT || nt.Obj().Pkg() != c.Types || nt.Obj().Exported() {
+			return true
+		}
+		hasLoader := false
+		var base ast.Expr
+		for _, el := range lit.Elts {
+			kv, isKV := el.(*ast.KeyValueExpr)
+			if !isKV {
+				continue
+			}
+			t := c.typeOf(kv.Value)
+			switch {
+			case t != nil && isNamed(derefType(t), c.Types, fam.loader.Obj().Name()):
+				hasLoader = true
+			case t != nil && isStringType(t):
+				base = kv.Value
+			}
+		}
+		if !hasLoader || base == nil {
+			return true
+		}
+		packed = true
+		p, isPath := c.apath(base)
+		ok = isPath && optID != nil && p.Root == c.objOf(optID) && lastStep(p) == "RelativeBase" && base.Pos() > fcall.End()
+		return true
+	})
+	return
 }
